@@ -229,9 +229,6 @@ class HEMModel(LevyModel):
         z = np.log(1 - v) * wi
         return z
 
-    def process_drift(self) -> np.array:
-        return -self.parameters.intensity * self.parameters._xi
-
     def intensity(self) -> float:
         return self.parameters.intensity
 
